@@ -131,7 +131,12 @@ impl Prop for C07 {
             // single write: half natural, half arbitrary pairs
             let fv = g.coin();
             let col = gen_col(g, fv);
-            let val = if g.coin() {
+            let val = if matches!(col.coltype, T_DATE | T_DATETIME | T_TIMESTAMP) && g.chance(1, 4) {
+                // dates beyond year 9999 / before year 0: exact, refused, never another date
+                let (y, m, d) = gen_date_far(g);
+                let base = if col.coltype == T_DATE { Base::Date(y, m, d) } else { Base::DateTime(y, m, d, 23, 59, 58, if g.coin() { 0 } else { 999_999 }) };
+                Val { base, wrap: gen_wrap(g, false) }
+            } else if g.coin() {
                 match gen_bin_base(g, col.coltype, col.unsigned()) {
                     Some(b) => Val { base: b, wrap: gen_wrap(g, true) },
                     None => gen_any_val(g),
